@@ -112,6 +112,15 @@ def C06(tier, rng):
     for pair in look_alike_name_pairs():
         cs.append(enc_case(names_msg_a(pair), 'look-alike'))
         cs.append(enc_case(names_msg(list(pair) + [(b'p',) + pair[1]], 'qor'), 'look-alike'))
+    # labels with white space at their ends, control characters, quotes: octet-exact through encoder AND the library's decoder
+    odd = [(b'Lobby printer ', b'_ipp', b'_tcp', b'local'), (b' lead', b'example'), (b'trail ', b'example'), (b' ',), (b'\t', b'x'), (b' both ', b' both '),
+           (b'a\x00b', b'x'), (b'"q"', b'x'), (b'\x7f', b'x'), (b'\xc2\xa0nbsp', b'x')]
+    for n in odd:
+        cs.append(enc_case(names_msg([n, (b'p',) + n, n], 'qor'), 'odd-label'))
+        cs.append(enc_case(msg_with([{'ty': 12, 'name': (b'_ipp', b'_tcp', b'local'), 'ttl': 0, 'cls': 1, 'f': [n]}, {'ty': 1, 'name': n, 'ttl': 0, 'cls': 1, 'f': [b'\1\2\3\4']}]), 'odd-label'))
+    # every name-bearing record type at its boundaries (root names inside RDATA, maximum-length names ...): what follows a
+    # record in the message must still be where the next name is expected
+    cs += sweep_enc_dns_cases(types=tuple(t for t in TABLE if any(k[0] == 'd' for _, k in TABLE[t][2])) + (SVCB, HTTPS))
     for off in range(0x3FFF - 48, 0x4000 + 8, sz(tier, 3, 1)):
         m = straddle_msg(off, newtype=True)
         if m: cs.append(enc_case(m, 'straddle-newtype'))
@@ -171,6 +180,8 @@ def C07(tier, rng):
     cs.append(Case('dec.name %s' % hx(b'\1a\xc0\x00'), 'label-cycle'))
     cs += far_pointer_cases()
     cs += hidden_pointer_cases(tier)
+    cs += reserved_label_type_cases()
+    cs += long_rdata_name_cases()
     # self references and 2-cycles at every small offset
     for off in range(0, 64):
         b = bytearray(b'\0' * off) + ptr(off)
@@ -247,6 +258,23 @@ def _hidden_pointer_cases(tier, pad):
         cs.append(Case('dec.dns %s' % hx(msg(st, 0, 'owner')), 'hidden-cycle'))
     return cs
 
+def rdata_limit_cases(only_opt=False):
+    """element-level encodes whose RDATA is exactly 65,534 .. 65,538 octets, for every construct that back-patches RDLENGTH"""
+    cs = []
+    for d in (-2, -1, 0, 1, 2):
+        opts = [[('pad', 65532 + d)], [('cookie', b'\1' * 8, None), ('pad', 65520 + d)], [('pad', 30000), ('pad', 35528 + d)]]
+        for o in opts:
+            cs.append(Case('enc.rr %s' % prr({'ty': 41, 'payload': 512, 'ext': 0, 'ver': 0, 'do': 0, 'opts': o}), 'rdlimit-opt%+d' % d))
+        if only_opt: continue
+        cs.append(Case('enc.rr %s' % prr({'ty': 10, 'name': (), 'ttl': 0, 'cls': 1, 'f': [bytes(65536 + d)]}), 'rdlimit-null%+d' % d))
+        cs.append(Case('enc.struct %s' % prr({'ty': 10, 'name': (), 'ttl': 0, 'cls': 1, 'f': [bytes(65536 + d)]}), 'rdlimit-null%+d' % d))
+        cs.append(Case('enc.rr %s' % prr({'ty': 64, 'name': (), 'ttl': 0, 'cls': 1, 'prio': 1, 'target': (), 'params': [('ech', bytes(65527 + d))]}), 'rdlimit-ech%+d' % d))
+        cs.append(Case('enc.rr %s' % prr({'ty': 65, 'name': (), 'ttl': 0, 'cls': 1, 'prio': 1, 'target': (), 'params': [('key', 9, bytes(65529 + d))]}), 'rdlimit-key%+d' % d))
+        strs = [b'x' * 255] * 255 + [b'y' * (254 + d)] if d <= 0 else [b'x' * 255] * 256 + ([b''] * (d - 1))
+        cs.append(Case('enc.rr %s' % prr({'ty': 16, 'name': (), 'ttl': 0, 'cls': 1, 'f': [strs]}), 'rdlimit-txt%+d' % d))
+        cs.append(Case('enc.rr %s' % prr({'ty': 257, 'name': (), 'ttl': 0, 'cls': 1, 'f': [0, b'issue', bytes(65536 + d - 7)]}), 'rdlimit-caa%+d' % d))
+    return cs
+
 def cookie_histories(maxk):
     cs = []
     ck_calls = ['server:none'] + ['server:%s' % hx(bytes(n)) for n in (0, 7, 8, 9, 31, 32, 33, 300)] + ['client:1122334455667788']
@@ -303,6 +331,14 @@ def C08(tier, rng):
         cs.append(Case('enc.rr %s' % prr({'ty': 64, 'name': (), 'ttl': 0, 'cls': 1, 'prio': 1, 'target': (), 'params': [('key', 9, bytes(n))]}), 'param%d' % n))
         if n < 65536:
             cs.append(Case('enc.rr %s' % prr({'ty': 41, 'payload': 0, 'ext': 0, 'ver': 0, 'do': 0, 'opts': [('pad', n)]}), 'pad%d' % n))
+    cs += rdata_limit_cases()
+    # character strings measured in OCTETS: multi-octet characters, fewer than 256 characters but more than 255 octets
+    for s_ in (b'\xc3\xa9' * 127 + b'a', b'\xc3\xa9' * 128, b'\xc3\xa9' * 200, b'\xe2\x82\xac' * 85, b'\xe2\x82\xac' * 86, b'\xf0\x9f\x98\x80' * 64, b'\xc3\xa9' * 255):
+        for rr in ({'ty': 16, 'f': [[s_]]}, {'ty': 13, 'f': [s_, b'x']}, {'ty': 13, 'f': [b'x', s_]}, {'ty': 16, 'f': [[b'a', s_, b'b']]}):
+            rr = dict(rr, name=(b'a',), ttl=0, cls=1)
+            cs.append(enc_case(msg_with([rr]), 'mbstr%d' % len(s_)))
+            cs.append(Case('enc.rr %s' % prr(rr), 'mbstr-rr%d' % len(s_)))
+        cs.append(enc_case(msg_with([{'ty': 64, 'name': (), 'ttl': 0, 'cls': 1, 'prio': 1, 'target': (), 'params': [('alpn', [s_])]}]), 'mbalpn%d' % len(s_)))
     # two large TXT records (the 130 KB case) and messages around 64 KiB
     big = [[b'x' * 255] * 255]
     cs.append(enc_case(msg_with([{'ty': 16, 'name': (), 'ttl': 0, 'cls': 1, 'f': big}, {'ty': 16, 'name': (), 'ttl': 0, 'cls': 1, 'f': big}]), 'txt2'))
@@ -486,6 +522,7 @@ def C11(tier, rng):
     for t in QTYPES: cs.append(Case('enc.qtype %d' % t, 'enc-code'))
     for t in CLASSES: cs.append(Case('enc.class %d' % t, 'enc-code'))
     for t in QCLASSES: cs.append(Case('enc.qclass %d' % t, 'enc-code'))
+    cs += dnskey_flag_cases(tier)
     # record level: the type a decoded record reports (and writes back) is the one on the wire, for every type and form
     cs += sweep_rr_wire_cases() + sweep_wire_cases('rt.dns', both_layouts=False)
     # the enumerated fields inside records: every 8-bit code of every in-record enum
